@@ -51,6 +51,21 @@ def run(c, replay):
             if corr_bad is None:
                 corr_bad = (dict(kind="property" if found else "correspondence", driver="drv_queue", case=case, divergence=div, stderr=me[-300:],
                                  what="the consumer's answer differs from the model, whose extraction is proved to keep the multiset and (for a fixed order) to return a minimal element"), found)
+    # ---- free-running stress: real races between the consumer's buffer swap and concurrent producers (windows that no scheduling point covers)
+    okd2, lgd2, exe2 = V.build_driver(sd, "drv_queue_stress", objs)
+    stress = 0
+    if okd2:
+        for (p, it) in ([(2, 60000), (4, 60000)] if c.tier == "quick" else [(1, 300000), (2, 300000), (4, 300000), (8, 300000)]):
+            rc, so, se = V.run([exe2, str(p), str(it)], timeout=300)
+            stress += it
+            vals = {l.split()[0]: int(l.split()[1]) for l in so.split("\n") if l and l.split()[0] in ("BADPEEK", "LOST", "DUP")}
+            if rc != 0 or "OK" not in so:
+                san = "Sanitizer" in se or "runtime error" in se
+                c.violation("sanitizer" if san else "stress-driver-failed", dict(kind="memory-safety" if san else "driver", stderr=se[-1500:]), san)
+            elif vals.get("BADPEEK") or vals.get("LOST") or vals.get("DUP"):
+                c.violation("peek-above-inserted-message" if vals.get("BADPEEK") else "lost-or-duplicated",
+                            dict(kind="property", what="free-running: %s" % vals, how="harness/drv_queue_stress %d %d" % (p, it)), True)
+    c.cov["free_running_peek_queries"] = stress
     if corr_bad and not c.violations:
         c.violation("queue-answer-differs" if corr_bad[1] else "correspondence", corr_bad[0], found_input=corr_bad[1])
     if not proof_ok and not c.violations:
